@@ -88,6 +88,23 @@ func setCtx(yylex yyLexer, expr ast.Expr, ctx ast.ExprContext) {
 		yylex.(*yyLex).SyntaxErrorf("can't %s %s", action, expr_name)
 		return
 	}
+	// The elements of tuple, list and starred targets must be assignable
+	// too: report the first that is not, rather than failing a type
+	// assertion inside SetCtx
+	switch target := expr.(type) {
+	case *ast.Tuple:
+		target.Ctx = ctx
+		setCtxs(yylex, target.Elts, ctx)
+		return
+	case *ast.List:
+		target.Ctx = ctx
+		setCtxs(yylex, target.Elts, ctx)
+		return
+	case *ast.Starred:
+		target.Ctx = ctx
+		setCtx(yylex, target.Value, ctx)
+		return
+	}
 	setctxer.SetCtx(ctx)
 }
 
